@@ -100,6 +100,12 @@ tr!(c13_q_original_without_host, |s| e().with(Protocol::Tcp(s.p)).with(Protocol:
     e().with(Protocol::Ip4(s.b4)).with(Protocol::Tcp(s.q)),
     None);
 
+// observed host = an IPv4-mapped IPv6 address (what a dual-stack socket reports): 96 concrete
+// bits, 32 symbolic; the result must still start with that very /ip6 component
+tr!(c13_q_ip4tcp_by_mapped_ip6, |s| e().with(Protocol::Ip4(s.a4)).with(Protocol::Tcp(s.p)),
+    e().with(Protocol::Ip6(s.b4.to_ipv6_mapped())).with(Protocol::Tcp(s.q)),
+    Some(e().with(Protocol::Ip6(s.b4.to_ipv6_mapped())).with(Protocol::Tcp(s.p))));
+
 // thorough tier (shapes with a DNS string component or three and more components were tried and
 // do not finish: every component read back from the heap-allocated Multiaddr forks symbolic execution)
 #[cfg(feature = "thorough")]
